@@ -26,6 +26,7 @@ NS_POOL = ['Foo', 'Bar', 'Baz', 'Qux', 'FooBar', 'Gtk', 'Gdk', 'GLib', 'Gio', 'A
 LIBDIR_ENTRY = '/nonexistent/lib/girepository-1.0'
 BUILTIN = '<builtin>'
 ERR_NAMES = {0: 'NotFound', 1: 'Mismatch', 2: 'VersionConflict'}
+EAGER_OVER_LAZY = 'C17:eager-load-ignores-lazy-entry'
 
 # Genuine defects of the unchanged code (reported to the integrator; see the final report of the
 # C17 work package).  key -> KNOWN-FINDING text.  A history whose first deviation from the
@@ -41,10 +42,12 @@ PENDING_FINDINGS = {
         "where get_registered_status succeeded): loading Bar 2.0 from memory while Bar 1.0 is loaded replaces the "
         "typelib under the old key (version 2.0, path of Bar-1.0.typelib), duplicates it in the lazy table, or "
         "aborts in register_internal",
-    'C17:lazy-to-eager-transition-use-after-free':
-        "register_internal frees the lazy table's key (g_hash_table_remove with g_free as key destructor) and then "
-        "inserts the freed key into the eager table: after a lazily loaded namespace is loaded eagerly it is reported "
-        "as not loaded / with a garbage name",
+    'C17:eager-load-ignores-lazy-entry':
+        "an eager g_irepository_require / load_typelib of a LAZILY loaded namespace does not look at the lazy entry "
+        "(get_registered_status returns NULL without a version check when the LAZY flag is absent): the typelib is "
+        "searched again, so requiring another version is no NAMESPACE_VERSION_CONFLICT (Bar 1.0 lazily loaded, require "
+        "Bar 2.0: version 2.0 is then reported with the path of Bar-1.0.typelib, register_internal re-using the old "
+        "key), and requiring the loaded version fails with TYPELIB_NOT_FOUND when the file is not on the path searched now",
 }
 
 
@@ -401,14 +404,13 @@ def parse_real_line(kind, rest):
     return {'list': items}
 
 
-def canon(results, ops, drop_ub=True):
+def canon(results, ops):
     """canonical form shared by both sides: typelib identities renumbered by first appearance,
     unordered answers sorted"""
     ids = {}
     out = []
     for o, r in zip(ops, results):
         r = dict(r)
-        r.pop('ub', None)
         if 'ok' in r:
             t = list(r['ok'])
             t[0] = ids.setdefault(t[0], len(ids))
@@ -442,6 +444,7 @@ class Spec(object):
         self.loaded = {}            # ns -> dict(ver, path, deps, lazy, tid)
         self.taint = None           # first situation that belongs to a pending-finding class
         self.ntid = 0
+        self.events = []            # coverage: lazy -> eager transitions seen
 
     def set_taint(self, cls):
         if self.taint is None:
@@ -474,30 +477,24 @@ class Spec(object):
             raise Outside('dependency cycle')
         if ns in self.loaded:
             e = self.loaded[ns]
-            if e['lazy'] and not lazy:
-                self.set_taint('C17:lazy-to-eager-transition-use-after-free')
-            if ver is None or ver == e['ver']:
-                return ('same', e['tid'])
-            return ('err', 'VersionConflict')
-        if ver is not None:
-            fname = '%s-%s.typelib' % (ns, ver)
-            chosen = None
-            for d in search:
-                if d in self.dirs and fname in self.dirs[d]:
-                    chosen = [(d, fname, ver)]
-                    break
-            if chosen is None:
-                return ('err', 'NotFound')
-        else:
-            cands = self.candidates(ns, search)
-            if not cands:
-                return ('err', 'NotFound')
-            if any(not NUMERIC.match(c[3]) for c in cands):
-                raise Outside('a candidate file name has no numeric major.minor version')
-            best = max(numver(c[3]) for c in cands)
-            top = [c for c in cands if numver(c[3]) == best]
-            first = min(c[0] for c in top)
-            chosen = [(c[1], c[2], c[3]) for c in top if c[0] == first]
+            transition = e['lazy'] and not lazy
+            if ver is not None and ver != e['ver']:
+                if transition:
+                    self.set_taint(EAGER_OVER_LAZY)     # the library searches again instead
+                return ('err', 'VersionConflict')
+            if transition:
+                # "requiring an already loaded namespace returns it"; being loaded eagerly now, its
+                # recorded dependencies have to be loaded too (the caller runs `promote`)
+                if not self.search_finds_same(ns, ver, search, e):
+                    self.set_taint(EAGER_OVER_LAZY)
+                    self.events.append('lazy->eager:search-finds-other-contents')
+                else:
+                    self.events.append('lazy->eager:clean')
+                return ('promote', e['tid'])
+            return ('same', e['tid'])
+        chosen = self.elect(ns, ver, search)
+        if chosen is None:
+            return ('err', 'NotFound')
         if len(chosen) > 1:
             # distinct strings of equal version in one directory: the statement allows either;
             # judged only when all of them lead to the same demanded outcome class
@@ -514,6 +511,47 @@ class Spec(object):
             return ('err', 'Mismatch')
         return ('pick', chosen)
 
+    def elect(self, ns, ver, search):
+        """the file(s) the statement designates: [(dir, file name, version of the file name)] or None.
+        Explicit version: <ns>-<ver>.typelib of the first directory having it.  No version: highest
+        numeric major.minor, earliest directory among equals (several entries = distinct strings of
+        equal version inside that one directory)."""
+        if ver is not None:
+            fname = '%s-%s.typelib' % (ns, ver)
+            for d in search:
+                if d in self.dirs and fname in self.dirs[d]:
+                    return [(d, fname, ver)]
+            return None
+        cands = self.candidates(ns, search)
+        if not cands:
+            return None
+        if any(not NUMERIC.match(c[3]) for c in cands):
+            raise Outside('a candidate file name has no numeric major.minor version')
+        best = max(numver(c[3]) for c in cands)
+        top = [c for c in cands if numver(c[3]) == best]
+        first = min(c[0] for c in top)
+        return [(c[1], c[2], c[3]) for c in top if c[0] == first]
+
+    def search_finds_same(self, ns, ver, search, e):
+        """would a fresh search (which the statement does not ask for: the namespace is loaded)
+        come back with the contents that are loaded?  Only used to recognise the situation of
+        the pending finding EAGER_OVER_LAZY."""
+        chosen = self.elect(ns, ver, search)
+        if chosen is None:
+            return False
+        return all(self.dirs[c[0]][c[1]] == e['hdr'] for c in chosen)
+
+    def promote(self, ns, depth):
+        """a lazily loaded namespace becomes eagerly loaded: its recorded dependencies are loaded
+        at the recorded versions; -> None or the error of a dependency"""
+        e = self.loaded[ns]
+        err = self.load_deps(e['hdr'], depth)
+        if err is None:
+            e['lazy'] = False
+            e['tid'] = self.ntid        # the GITypelib object may be another one from now on
+            self.ntid += 1
+        return err
+
     def file_kind(self, ns, c):
         h = self.dirs[c[0]][c[1]]
         if h['ns'] != ns:
@@ -529,6 +567,10 @@ class Spec(object):
             r = self.require(dn, dv, False, self.path, depth + 1)
             if r[0] == 'err':
                 return r
+            if r[0] == 'promote':
+                e = self.promote(dn, depth + 1)
+                if e is not None:
+                    return e
             if r[0] == 'pick':
                 d, fn, _v = r[1][0]        # explicit version: a single file
                 h = self.dirs[d][fn]
@@ -539,7 +581,8 @@ class Spec(object):
         return None
 
     def register(self, ns, hdr, path, lazy):
-        self.loaded[ns] = {'ver': hdr['ver'], 'path': path, 'deps': list(hdr['deps']), 'lazy': lazy, 'tid': self.ntid}
+        self.loaded[ns] = {'ver': hdr['ver'], 'path': path, 'deps': list(hdr['deps']), 'lazy': lazy, 'tid': self.ntid,
+                           'hdr': hdr}
         self.ntid += 1
         return self.loaded[ns]['tid']
 
@@ -611,11 +654,32 @@ def judge_history(tree, ops, real, done, rc):
                         tids[tid] = r['ok'][0]
                 elif want[0] == 'same':
                     e = sp.loaded[o['ns']]
-                    if 'ok' in r and want[1] not in tids and r['ok'][0] not in tids.values():
+                    live = set(x['tid'] for x in sp.loaded.values())
+                    if 'ok' in r and want[1] not in tids and r['ok'][0] not in [v for t, v in tids.items() if t in live]:
                         tids[want[1]] = r['ok'][0]     # loaded as a dependency / from memory: first time it is returned
                     if 'ok' not in r or tids.get(want[1]) != r['ok'][0] or r['ok'][2] != e['ver'] or r['ok'][3] != e['path']:
                         return 'fails', 'call %d %r: already loaded (version %s, %s): the same typelib must be returned, got %r' \
                             % (i, o, e['ver'], e['path'], r), sp, judged
+                elif want[0] == 'promote':
+                    # lazily loaded, now required eagerly at an agreeing version: the namespace is
+                    # returned (version and path of the file that IS loaded) and its dependencies
+                    # get loaded.  The statement does not say that the GITypelib object stays the
+                    # same across this transition (the library maps the file again): a new identity
+                    # is accepted, the identity of ANOTHER namespace's typelib is not.
+                    e = sp.loaded[o['ns']]
+                    err = sp.promote(o['ns'], 0)
+                    if err is not None:
+                        if 'err' not in r:
+                            return 'fails', 'call %d %r: a dependency cannot be loaded (%s) but the call returned %r' \
+                                % (i, o, err[1], r), sp, judged
+                    else:
+                        if 'ok' not in r or r['ok'][1] != o['ns'] or r['ok'][2] != e['ver'] or r['ok'][3] != e['path']:
+                            return 'fails', 'call %d %r: lazily loaded (version %s, %s) and now required eagerly: it must be ' \
+                                'returned with that version and path, got %r' % (i, o, e['ver'], e['path'], r), sp, judged
+                        live = set(x['tid'] for x in sp.loaded.values())
+                        if r['ok'][0] in [v for t, v in tids.items() if t in live]:
+                            return 'fails', 'call %d %r: the typelib returned is the one of another namespace' % (i, o), sp, judged
+                        tids[e['tid']] = r['ok'][0]
                 else:
                     if r.get('err') is None or ERR_NAMES.get(r['err']) != want[1]:
                         return 'fails', 'call %d %r: the statement requires error %s, the library answered %r' % (i, o, want[1], r), sp, judged
@@ -626,13 +690,26 @@ def judge_history(tree, ops, real, done, rc):
                     raise Outside('special-cased namespace')
                 if ns in sp.loaded:
                     e = sp.loaded[ns]
-                    if e['lazy'] and not o['lazy']:
-                        sp.set_taint('C17:lazy-to-eager-transition-use-after-free')
+                    transition = e['lazy'] and not o['lazy']
                     if e['ver'] == hdr['ver']:
-                        if r.get('okns') != ns:
+                        err = None
+                        if transition:
+                            # already (lazily) loaded at this version: it stays what it is and becomes
+                            # eagerly loaded; the library registers the in-memory typelib under the old key
+                            if hdr != e['hdr']:
+                                sp.set_taint(EAGER_OVER_LAZY)
+                                sp.events.append('lazy->eager:load-other-contents')
+                            else:
+                                sp.events.append('lazy->eager:load-clean')
+                            err = sp.promote(ns, 0)
+                        if err is not None:
+                            if 'err' not in r:
+                                return 'fails', 'call %d %r: a dependency cannot be loaded (%s) but the call returned %r' \
+                                    % (i, o, err[1], r), sp, judged
+                        elif r.get('okns') != ns:
                             return 'fails', 'call %d %r: already loaded at this version, must succeed; got %r' % (i, o, r), sp, judged
                     else:
-                        sp.set_taint('C17:load-typelib-skips-version-conflict')
+                        sp.set_taint(EAGER_OVER_LAZY if transition else 'C17:load-typelib-skips-version-conflict')
                         if ERR_NAMES.get(r.get('err')) != 'VersionConflict':
                             return 'fails', 'call %d %r: %s is loaded at version %s, loading version %s must fail with a ' \
                                 'version conflict; got %r' % (i, o, ns, e['ver'], hdr['ver'], r), sp, judged
@@ -780,6 +857,8 @@ def process(ctx, cnt, exe, tree, ops, tag, origin, samples, pending_model, stats
                                    ':lazy' if o.get('lazy') else '', kind))
     if sp.taint:
         cnt.hit('taint:' + sp.taint.split(':', 1)[1])
+    for ev in sp.events:
+        cnt.hit(ev)
     replay = {'kind': 'history', 'universe': tree.pool.uni_json, 'config': tree.cfg, 'ops': ops,
               'real': real, 'completed': done, 'exit': rc, 'origin': origin}
     if verdict == 'fails':
@@ -812,28 +891,15 @@ def compare_with_model(ctx, cnt, pending):
         return 0
     ndiff = 0
     for (tree, ops, real, done, rc, _req, origin), model in zip(pending, answers):
-        # the model stops after a call that aborts the process; after the use-after-free the real
-        # behaviour is undefined: compare up to and including the call that sets `ub`
-        cut = len(model)
-        for i, m in enumerate(model):
-            if m.get('ub'):
-                cut = i + 1
-                cnt.hit('model:ub')
-                break
+        # the model stops after a call that aborts the process (g_assert failure / NULL dereference)
         m_abort = bool(model) and isinstance(model[-1].get('err'), str)
-        mm = canon(model[:cut], ops)
-        rr = canon(real[:cut], ops)
-        if cut < len(model) or (model and model[cut - 1].get('ub')):
-            for side in (mm, rr):
-                if len(side) == cut and 'ok' in side[-1]:
-                    side[-1] = {'ok': side[-1]['ok'][:2]}
+        mm = canon(model, ops)
+        rr = canon(real, ops)
         if m_abort:
-            # g_assert failure / NULL dereference in the model: the real process must have died at
-            # exactly that call ("fuel" is a model artefact and never agrees)
+            # the real process must have died at exactly that call ("fuel" is a model artefact and
+            # never agrees)
             cnt.hit('model:%s' % model[-1]['err'])
             ok = model[-1]['err'] != 'fuel' and mm[:-1] == rr and len(real) == len(model) - 1 and not done
-        elif cut < len(model):
-            ok = mm == rr
         else:
             ok = mm == rr and len(real) == len(ops) and done
         if not ok:
@@ -921,7 +987,7 @@ def run(ctx):
             continue
         cfg = gen_config(rng, pool)
         tree = Tree(os.path.join(ctx.scratch, 'cfg%d' % ci), pool, cfg)
-        lazy_p = rng.choice([0.0, 0.0, 0.05, 0.15])
+        lazy_p = rng.choice([0.0, 0.0, 0.05, 0.15, 0.4])
         hists = [gen_history(rng, pool, cfg, lazy_p) for _h in range(per)]
         base = tag[0]
         tag[0] += len(hists)
@@ -970,8 +1036,8 @@ def run(ctx):
         'matters between distinct version strings of equal value inside one directory (1.10 vs 1.010)',
         'the namespace GIRepository is special-cased by the library (only version 2.0 is ever considered): compared with '
         'the model, not judged by the oracle',
-        'after the use-after-free of the lazy-to-eager transition (pending finding) the real behaviour is undefined: '
-        'model and library are compared up to that call only',
+        'across a lazy-to-eager transition the library returns a new GITypelib object for the namespace (it maps a file '
+        'again): the oracle asks for the loaded version and path, not for pointer identity, on that one call',
         'g_slist_sort is stable (the model sorts with a stable insertion sort); strtol as modelled is compared with libc',
     ])
 
